@@ -995,6 +995,52 @@ def _requirements_part(ctx, events, recipes):
             fn(events)
             recipes.append((start, len(events), fn))
 
+    # A weak or absent peak on a strongly curved background, fitted with a LIST of backgrounds: the first
+    # combination (linear) is hopeless and rejected, the second (quadratic) describes the data without any peak.
+    # Whatever is returned, `success` requires that background + peak is at least as good (AIC) as the background
+    # OF THE RESULT alone - judged per result like every other fit (requirement 1 of FitPeaksDefs).
+    def curved(evs, nseed, amp, bks, sx, sy):
+        nrng = np.random.default_rng(nseed)
+        x = np.linspace(0.0, 10.0, 81) * sx
+        step = x[1] - x[0]
+        u = x / sx
+        y = 50.0 + 3.0 * u + 2.0 * (u - 5.0) ** 2 + lp.np_gaussian(u, amp, 5.0, 0.5) + nrng.normal(0, 1.0, len(x))
+        y, var = y * sy, np.full(len(x), sy * sy)
+        data = sc.DataArray(sc.array(dims=['d'], values=y, variances=var, unit='counts'),
+                            coords={'d': sc.array(dims=['d'], values=x, unit='angstrom')})
+        req = {'min_p': 0.01, 'max_w': 1.0, 'min_w': 1.0}
+        cev = {'ev': 'call', 'tid': 0, 'nest': 1, 'out': 'ok', 'nres': 0, 'order_ok': True, 'iso': [],
+               'forms': ['name', 'name'], 'peak': ['gaussian'], 'bkg': list(bks), 'explicit': False,
+               'which': 'weak peak on a curved background', 'scales': [sx, sy], 'args_same': True, 'again_same': True}
+        try:
+            res = fit_peaks(data, peak_estimates=sc.array(dims=['d'], values=[5.0 * sx], unit='angstrom'),
+                            windows=sc.scalar(8.0 * sx, unit='angstrom'), background=list(bks), peak='gaussian',
+                            fit_requirements=FitRequirements(min_p_value=req['min_p'], max_peak_width_factor=req['max_w'],
+                                                             min_peak_width_factor=req['min_w']))
+        except Exception as e:  # noqa: BLE001
+            cev.update(out='raised', key=_exc_key('fit_peaks', e), exc=repr(e)[:200])
+            evs.append(cev)
+            ctx.case()
+            return
+        cev['nres'] = len(res)
+        evs.append(cev)
+        for r in res:
+            evs.append(_fit_event(ctx, 0, r, x, y, var, step, req, ['gaussian'], list(bks)))
+            ctx.case(nontrivial_id=('curved', amp, tuple(bks), sx, sy, nseed))
+
+    for k in range(48 if ctx.thorough else 7):
+        nseed = rng.getrandbits(32)
+        sx, sy = SCALES[k % len(SCALES)] if k % 4 == 3 else (1.0, 1.0)
+        for amp in ((0.0, 0.6, 1.2, 2.5) if ctx.thorough else (0.0, 0.6, 1.2)):
+            for bks in (('linear', 'quadratic'), ('quadratic', 'linear'), ('quadratic',)):
+                if not ctx.thorough and bks[0] == 'quadratic' and (k % 3 or amp != 0.6):
+                    continue      # quick: the quadratic-first listings on every third data set only
+                def fn(evs, a=(nseed, amp, bks, sx, sy)):
+                    curved(evs, *a)
+                start = len(events)
+                fn(events)
+                recipes.append((start, len(events), fn))
+
 
 def _model_spec_repeat(kinds, role):
     return (kinds[0] if len(kinds) == 1 else list(kinds)), 'repeat'
